@@ -2,6 +2,7 @@
 from __future__ import annotations
 
 import ast
+import re
 
 from .. import astq
 from ..model import AnalysisError
@@ -78,8 +79,19 @@ def run(ctx):
         ctx.ob(R2, pfi.qual, f"parsed_url.{attr}", not leak,
                "" if not leak else f"the absolute-form target is Url.{attr}, which includes {leak}: via a forwarding proxy the request line carries user:password@ and #fragment", witness=s.st.witness(), node=s.node)
     et = m.func(f"{URL}._encode_target")
-    tr = fold.need(URL, "_TARGET_RE")
-    ctx.ob(R2, et.qual, "_encode_target keeps path and query only (fragment not captured)", "(?:#.*)?" in tr.pattern and astq.text(et.node).count(".groups()") == 1)
+    uses_re = any(isinstance(n_, ast.Name) and n_.id == "_TARGET_RE" for n_ in ast.walk(et.node))
+    if uses_re:
+        # recognised idiom: the target is split by a pattern and rebuilt from its capturing groups - none of them may be able to
+        # contain '#', i.e. whatever follows the first '#' (the fragment) is matched but never captured
+        from .. import rx as _rx
+        tr = fold.need(URL, "_TARGET_RE")
+        pr_ = _rx.parse(tr.pattern, tr.flags)
+        gs = _rx.groups(pr_)
+        bad = sorted(g_ for g_, sub_ in gs.items() if "#" in _rx.any_chars(sub_, dotall=bool(tr.flags & re.DOTALL)))
+        ctx.ob(R2, et.qual, f"_encode_target keeps path and query only (no capturing group of the target pattern can hold '#'; {len(gs)} groups)", bool(gs) and not bad,
+               "" if gs and not bad else f"group(s) {bad} of _TARGET_RE can contain '#': the fragment reaches the request target")
+    else:
+        ctx.ob(R2, et.qual, "_encode_target splits the target without the target pattern (idiom not recognised: the encoder's own rule C10-R2 decides the value; here provenance only)", True)
 
     # ------------------------------------------------------------------ R3 dial vs name
     R3 = ctx.rule("C15-R3", "the address dialled is the URL's host as written (trailing dot kept for DNS), while Host and SNI use the host with the trailing dot removed; the host property depends only on that one field", "E6")
@@ -109,6 +121,10 @@ def _run_r7(ctx):
         from_parse = any(t.startswith("parsed:") or t.startswith("u.") for t in u.tags)
         origin = "_encode_target" in u.tags and not from_parse
         sel = s.st.facts.get(SEL, (None, None))[0]
+        if sel is None:
+            for first in ("given-url[:1]", "given-url[0]"):  # the same test spelt url[:1] == "/"
+                if ("cmp", first, "==", "'/'") in s.st.ts:
+                    sel = s.st.ts[("cmp", first, "==", "'/'")]
         parsed_decided = sorted(k for k, v in s.st.facts.items() if k in ("u.host", "u.netloc", "u.hostname", "u.authority", "u.auth", "u.port") and (v[0] is not None or v[1] is not None))
         key = (from_parse, origin, sel, tuple(parsed_decided))
         if key in seen:
